@@ -76,10 +76,96 @@ def self_attrs(node, ctx):
 
 def check(src, rep):
     try:
-        _check(src, rep)
+        try:
+            _check(src, rep)
+        except Undecided as e:
+            # the field-level analysis (E-BITLIN on the class's own fields) does not apply to this representation: decide through the public API
+            if not _api_route(src, rep, str(e)):
+                raise
     except TableWrong as e:
         rep.violation("O1", f"{MOD}.{CLS}", f"table {e}", "the look-up table is not the RFC 1662 FCS-16 table at the point where it is read (wrong entries, or not yet built when the "
                       "static one-shot functions or the constructor read it)", src.file(MOD), 1, witness=str(e))
+
+
+def _api_route(src, rep, why):
+    """O1-O7 through FastFrameCheckSequence16's public API (E-ABS/BV, sa/fcsworlds.py); True when every obligation was decided (holds or violated)"""
+    from sa.fcsworlds import incremental, one_shot
+    M = Model(src)
+    ce = ConstEval(M)
+    key = (MOD, CLS)
+    cls = M.classes.get(key)
+    if cls is None:
+        return False
+    file = src.file(MOD)
+    inc = incremental(M)
+    if inc[0] == "undecided":
+        rep.notes.append(f"public-API route not applicable either: {inc[1]}")
+        return False
+    rep.notes.append(f"field-level analysis not applicable ({why[:120]}); obligations decided through the public API")
+    if inc[0] == "bad":
+        fn_ = M.find_method(key, inc[2])
+        rep.violation(inc[1], f"{MOD}.{CLS}.{inc[2]}", "api:" + inc[2], inc[3], file, fn_.node.lineno if fn_ else 1)
+    else:
+        rep.ok("O2", "update()", "for 0..3 symbolic octets fed to a new object, the value update() returns equals the RFC 1662 bit-serial register (the register after two octets ranges over all "
+               "2^16 values, so the third step is the RFC step for every register and octet)")
+        rep.ok("O3", "initial state / return value", "a new object behaves as register 0xFFFF; update() returns the new register")
+        rep.ok("O4", "checksum", "register xor 0xFFFF after 0..3 symbolic octets; reading it changes nothing")
+        rep.ok("O5", "is_good", "the test `register == 0xF0B8` after 0..3 symbolic octets")
+        rep.ok("O6", "residue", "implied: a correct step function and the 0xF0B8 test (RFC 1662 good-FCS value)")
+        rep.ok("O1", "table", "every table entry the step function can use is right (the step equals the bit-serial definition for every register and octet)", nontrivial=False)
+    rep.count("api_cells", inc[1] if inc[0] == "ok" else 0)
+    # nobody outside the class writes the object's state
+    fields = {n.attr for f in cls.methods.values() for n in ast.walk(f.node) if isinstance(n, ast.Attribute) and isinstance(n.ctx, ast.Store) and isinstance(n.value, ast.Name) and n.value.id == "self"}
+    fields |= set(cls.consts)
+    badw = 0
+    for name, (m, c, f), line, kind in census_writes(src, fields):
+        if kind == "class-body" or (m == MOD and c == CLS):
+            continue
+        if m == MOD and c is not None and c != CLS and c.startswith("_"):
+            continue  # a private helper class of the module (e.g. a register record): its own fields
+        badw += 1
+        rep.violation("O3", f"{m}.{c}.{f}", f"{kind} {name}", "writer of FCS state / table / constant outside the class", src.file(m), line)
+    if not badw:
+        rep.ok("O3", f"write census over {len(src.text)} modules", f"no store to {sorted(fields)[:6]} outside the class")
+    # one-shot function: bounded windows on symbolic octets + the loop shape that extends them to every length
+    cc = cls.methods.get("compute_checksum")
+    os_ = one_shot(M)
+    if os_[0] == "bad":
+        rep.violation("O7", f"{MOD}.{CLS}.compute_checksum", "window", os_[1], file, cc.node.lineno if cc else 1)
+        return True
+    if os_[0] == "undecided":
+        rep.undecide(f"O7 {os_[1]}")
+        return True
+    rep.count("window_cells", os_[1])
+
+    class Ex(SymExec):
+        pass
+    try:
+        _check_compute_checksum(rep, M, ce, cc, file, Ex)
+    except (Undecided, TableWrong) as e:
+        # catalogue entry: the fold drives a fresh object of the class through update() over exactly range(start, start + length) and returns its checksum
+        body = _body(cc)
+        loops = [s for s in body if isinstance(s, ast.For)]
+        ok_form = False
+        if len(loops) == 1 and isinstance(loops[0].target, ast.Name) and isinstance(loops[0].iter, ast.Call) and ast.unparse(loops[0].iter.func) == "range" and len(loops[0].iter.args) == 2:
+            data, start, length = cc.params
+            lo, hi = _lin(loops[0].iter.args[0], (start, length, data), {}), _lin(loops[0].iter.args[1], (start, length, data), {})
+            verdict, _w = _window_verdict(lo, hi, (start, length, data))
+            lb = loops[0].body
+            upd_call = len(lb) == 1 and isinstance(lb[0], ast.Expr) and isinstance(lb[0].value, ast.Call) and isinstance(lb[0].value.func, ast.Attribute) and lb[0].value.func.attr == "update" \
+                and len(lb[0].value.args) == 1 and ast.unparse(lb[0].value.args[0]) == f"{data}[{loops[0].target.id}]" and isinstance(lb[0].value.func.value, ast.Name)
+            if verdict == "ok" and upd_call:
+                obj = lb[0].value.func.value.id
+                created = any(isinstance(s, ast.Assign) and isinstance(s.targets[0], ast.Name) and s.targets[0].id == obj and isinstance(s.value, ast.Call) and ast.unparse(s.value.func).split(".")[-1] == CLS and not s.value.args
+                              for s in body[:body.index(loops[0])])
+                rets = [s for s in body[body.index(loops[0]) + 1:] if isinstance(s, ast.Return)]
+                ok_form = created and len(rets) == 1 and ast.unparse(rets[0].value) == f"{obj}.checksum"
+        if ok_form:
+            rep.ok("O7", "compute_checksum", f"feeds data[start : start+length] octet by octet to update() of a fresh object and returns its checksum ({os_[1]} windows of symbolic octets evaluated); "
+                   "by O2-O4 that is the complemented RFC 1662 fold for every length")
+        else:
+            rep.undecide(f"O7 all {os_[1]} windows with start, length <= 4 over symbolic octets are correct, but the fold is not in the loop catalogue that extends this to every length ({e})")
+    return True
 
 
 def _check(src, rep):
